@@ -346,3 +346,13 @@ def write_if_changed(path, text):
         open(path, "w").write(text)
         return True
     return False
+
+
+def existing_def(path, name):
+    """text of `def name ...` (with its doc comment) in a previously generated Lean file, or None"""
+    import re
+    if not os.path.exists(path):
+        return None
+    src = open(path).read()
+    m = re.search(r"(/--(?:(?!-/).)*-/\n)?def " + re.escape(name) + r" .*?(?=\n/--|\n/-!|\nend |\Z)", src, re.S)
+    return m.group(0).rstrip() + "\n" if m else None
